@@ -27,6 +27,7 @@ func runC19(opt *Options) int {
 			{Name: "K7.marker", Pkg: "config/parse", Harness: "VerifHarness_C19_Marker", Unwind: 48},
 			{Name: "K7.variables", Pkg: "comments", Harness: "VerifHarness_C19_Variables", Unwind: 64},
 			{Name: "K7.interface", Pkg: "comments", Harness: "VerifHarness_C19_Interface", Unwind: 64},
+			{Name: "K7.trailing", Pkg: "comments", Harness: "VerifHarness_C19_Trailing", Unwind: 64},
 			{Name: "K7.nomarker", Pkg: "comments", Harness: "VerifHarness_C19_NoMarker", Unwind: 64},
 		},
 		Funcs:  []string{"comments.parseGenDecl", "comments.parseFunctions", "comments.parseInterface", "comments.parseInterfaceMethods", "comments.parseRawLines", "go/ast (Pos, Ident.String, ... executed like the code under test)", "parse.CommentToString", "parse.stripTrailingWhitespace", "parse.isWhitespace", "parse.SettingLines", "parse.Command"},
@@ -35,7 +36,7 @@ func runC19(opt *Options) int {
 			"go/parser's guarantees on Comment.Text: `//` comments contain no newline, carriage returns are stripped, a block comment body does not contain its terminator",
 			"ASCII only: every symbolic byte < 0x80 (non-ASCII white space is outside the claim)",
 			"strings.* and bufio.Scanner(ScanLines) are replaced by byte-loop models validated natively against the stdlib on every build of /verif/models",
-			"declaration kernels (K7.variables/interface/nomarker) build go/ast nodes directly: which Doc go/parser attaches to which node (detached, trailing comments) is go/parser's contract and outside",
+			"declaration kernels (K7.variables/interface/nomarker) build go/ast nodes directly: which comment go/parser attaches as Doc and which as trailing Comment is go/parser's contract and outside",
 		},
 	}
 	return lr.finish(lr.run(), nil)
